@@ -37,7 +37,7 @@ def one(args):
         except Exception as e:
             tb = traceback.extract_tb(e.__traceback__)
             fr = [f for f in tb if f.filename.startswith(instrument.REPO.rstrip("/") + "/")]
-            site = "%s:%d:%s" % (fr[-1].filename.replace(instrument.REPO.rstrip("/") + "/", ""), fr[-1].lineno, fr[-1].name) if fr else "harness"
+            site = "%s:%s" % (fr[-1].filename.replace(instrument.REPO.rstrip("/") + "/", ""), fr[-1].name) if fr else "harness"
             out.append({"prop": prop, "exception": "%s@%s" % (type(e).__name__, site), "msg": str(e)[:100], "fixture": name, "conf": conf})
     return out
 
